@@ -1,5 +1,6 @@
 import RagcModel.Lemmas.Pipeline
 import RagcModel.Gen.Tables
+import RagcModel.Lemmas.Canon
 /-!
 C04 — archive bytes do not depend on threads or timing: the *batches* that worker 0 classifies are
 the same, as sets, in every execution of the pipeline.
@@ -158,6 +159,49 @@ theorem two_runs_same_batches (prog : List Instr) (N cap₁ cap₂ : Nat) (s₁ 
   obtain ⟨a₁, b₁, _⟩ := batches_schedule_independent prog N cap₁ s₁ hsep hwf₁ hok hr₁ hf₁
   obtain ⟨a₂, b₂, _⟩ := batches_schedule_independent prog N cap₂ s₂ hsep hwf₂ hok hr₂ hf₂
   exact ⟨by omega, fun r h₁ h₂ => (b₁ r h₁).trans (b₂ r h₂).symm⟩
+
+/-! ### From batches to what is classified: arrival order inside a batch is irrelevant
+
+`classify_raw_segments_at_barrier` drains the per-worker buffers and SORTS the result
+(`Gen.classifySortsDrained`, `Canon.rawLe_translated`) before classifying it sequentially. So the
+state after all rounds is a fold of an (unmodelled, arbitrary) function `F` over the sorted batches,
+and it is the same in every execution. What remains outside is only that `F` itself is a
+function — i.e. that classification and the store phase read nothing but their inputs (the ZSTD
+context history of D-class changes such as `C04-sticky-zstd-ldm` is exactly such a hidden input;
+that is what the byte-identity runs and C12's context-history cases are for). -/
+
+/-- the translator saw `raw_segs.sort()` as the first statement reading the drained vector -/
+theorem classify_sorts_drained : Ragc.Gen.classifySortsDrained = true := rfl
+
+open Ragc.Canon in
+/-- **Schedule independence carried through classification.** Two terminated executions of the same
+program (any capacities, any interleavings); `segsOf c` are the raw segments contig `c` is cut into
+(a function of the contig and the splitters, C10/C11); `d₁`, `d₂` are what the barrier rounds of the
+two runs drained — any interleaving of the workers' appends, i.e. any permutation of the segments of
+the batch's contigs. If no two segments of a round share `(sample, contig, place)`, the state after
+all rounds is the same, whatever `F` (classification + store) computes from a sorted batch. -/
+theorem classified_state_schedule_independent {σ : Type} (F : σ → List RawSeg → σ) (init : σ)
+    (segsOf : Nat → List RawSeg)
+    (prog : List Instr) (N cap₁ cap₂ : Nat) (s₁ s₂ : State)
+    (hsep : PrioSep prog) (hwf₁ : WellFormedProgram N cap₁ prog) (hwf₂ : WellFormedProgram N cap₂ prog)
+    (hok : RdOk N prog)
+    (hr₁ : Reachable false prog cap₁ N s₁) (hf₁ : Final s₁)
+    (hr₂ : Reachable false prog cap₂ N s₂) (hf₂ : Final s₂)
+    (d₁ d₂ : List (List RawSeg))
+    (hl₁ : d₁.length = s₁.batches.length) (hl₂ : d₂.length = s₂.batches.length)
+    (hd₁ : ∀ r (h : r < d₁.length) (h' : r < s₁.batches.length), (d₁[r]).Perm ((s₁.batches[r]).flatMap segsOf))
+    (hd₂ : ∀ r (h : r < d₂.length) (h' : r < s₂.batches.length), (d₂[r]).Perm ((s₂.batches[r]).flatMap segsOf))
+    (hk : ∀ r, KeysDistinct ((roundContigs prog r).flatMap segsOf)) :
+    (d₁.map canon).foldl F init = (d₂.map canon).foldl F init := by
+  obtain ⟨a₁, b₁, _⟩ := batches_schedule_independent prog N cap₁ s₁ hsep hwf₁ hok hr₁ hf₁
+  obtain ⟨a₂, b₂, _⟩ := batches_schedule_independent prog N cap₂ s₂ hsep hwf₂ hok hr₂ hf₂
+  apply rounds_order_insensitive F d₁ d₂ init (by omega)
+  intro r h₁ h₂
+  have p₁ := (hd₁ r h₁ (by omega)).trans ((b₁ r (by omega)).flatMap_right segsOf)
+  have p₂ := (hd₂ r h₂ (by omega)).trans ((b₂ r (by omega)).flatMap_right segsOf)
+  refine ⟨p₁.trans p₂.symm, ?_⟩
+  intro a ha b hb hab
+  exact hk r a (p₁.subset ha) b (p₁.subset hb) hab
 
 /-! ### The programs the CLI generates satisfy the hypotheses -/
 
